@@ -71,7 +71,7 @@ var tiers = map[string]map[string]tierCfg{
 	"C09": {"quick": {160, 90}, "thorough": {4800, 1500}},
 	"C08": {"quick": {28000, 150}, "thorough": {5000000, 1500}},
 	"C10": {"quick": {3200, 90}, "thorough": {8000000, 1200}},
-	"C06": {"quick": {52000, 120}, "thorough": {20000000, 1200}},
+	"C06": {"quick": {66000, 150}, "thorough": {20000000, 1200}},
 	"C19": {"quick": {12000, 90}, "thorough": {5000000, 1200}},
 }
 
